@@ -9,6 +9,7 @@ from trashcli.fstab.volumes import Volumes
 from trashcli.lib.environ import Environ
 from trashcli.lib.trash_dirs import (
     volume_trash_dir1, volume_trash_dir2, home_trash_dir)
+from trashcli.trash_dirs_scanner import TopTrashDirRules, top_trash_dir_valid
 
 
 @six.add_metaclass(ABCMeta)
@@ -72,3 +73,37 @@ class TrashDirectories1:
                 yield path1, volume1
             for path1, volume1 in volume_trash_dir2(volume, self.uid):
                 yield path1, volume1
+
+
+class SecureTrashDirectories(TrashDirectories):
+    """
+    Leaves out $topdir/.Trash/$uid when $topdir/.Trash does not pass the
+    checks required by the spec (a directory, not a symbolic link, with the
+    sticky bit), as trash-put, trash-list, trash-empty and trash-rm do.
+    """
+
+    def __init__(self,
+                 trash_directories,  # type: TrashDirectories
+                 top_trash_dir_rules,  # type: TopTrashDirRules
+                 uid,  # type: int
+                 ):
+        self.trash_directories = trash_directories
+        self.top_trash_dir_rules = top_trash_dir_rules
+        self.uid = uid
+
+    def list_trash_dirs(self,
+                        trash_dir_from_cli,  # type: Optional[str]
+                        ):
+        for path, volume in self.trash_directories.list_trash_dirs(
+                trash_dir_from_cli):
+            if trash_dir_from_cli or not self._is_top_trash_dir(path, volume):
+                yield path, volume
+            elif (self.top_trash_dir_rules.valid_to_be_read(path)
+                  == top_trash_dir_valid):
+                yield path, volume
+
+    def _is_top_trash_dir(self, path, volume):
+        for top_trash_dir, _ in volume_trash_dir1(volume, self.uid):
+            if path == top_trash_dir:
+                return True
+        return False
